@@ -118,6 +118,7 @@ pub fn run(o: &Opts) -> Report {
     let scs = scen::all_scenarios();
     let draws = if o.thorough() { 12 } else { 2 };
     let muts = if o.thorough() { 40 } else { 6 };
+    let shapes = crate::c04::load_shapes();
     for &code in SUPPORTED.iter() {
         let mut type_pairs_done = false;
         for (_, name, path) in scs.iter().filter(|s| s.0 == code) {
@@ -154,24 +155,39 @@ pub fn run(o: &Opts) -> Report {
                     for (d1, m1) in crate::c04::charge_mutants(code, &j) {
                         cases.push((vec![d1], m1, 2));
                     }
+                    for (d1, m1) in crate::c04::absent_member_mutants(code, &j, &shapes) {
+                        cases.push((vec![d1], m1, 2));
+                    }
                     // every pair of single mutants that violate *different* rules, composed (first scenario of the type):
                     // messages with two or more violated rule groups, where stop-on-first and the full list differ
                     if !type_pairs_done {
                         type_pairs_done = true;
-                        let singles = crate::c04::single_mutants(&j);
-                        let mut violating: Vec<(String, Value, Vec<String>)> = Vec::new();
+                        // on a message with at least two sequence elements, so that the two violations can sit in DIFFERENT
+                        // elements (rule X in the second sequence, rule Y in the first: the order of the full list and the
+                        // stop-on-first result then depend on whether the code walks rules or sequences first)
+                        let mut j2 = j.clone();
+                        if let Some(Value::Array(seq)) = j2.get_mut("fields").and_then(|f| f.get_mut("#")) {
+                            if seq.len() == 1 { let e = seq[0].clone(); seq.push(e); }
+                        }
+                        let elem_of = |d: &str| -> usize { d.split("#/").nth(1).and_then(|r| r.split('/').next()).and_then(|n| n.split(' ').next()).and_then(|n| n.parse::<usize>().ok()).map(|n| n + 1).unwrap_or(0) };
+                        let mut singles = crate::c04::single_mutants(&j2);
+                        singles.extend(crate::c04::absent_member_mutants(code, &j2, &shapes));
+                        let mut violating: Vec<(String, Value, Vec<String>, usize)> = Vec::new();
                         for (d1, m1) in &singles {
                             let codes: Option<Vec<String>> = with_mt!(code, T => serde_json::from_value::<SwiftMessage<T>>(m1.clone()).ok().map(|m| m.fields.validate_network_rules(false).iter().map(|e| e.error_code().to_string()).collect()), None);
                             if let Some(c) = codes {
-                                if !c.is_empty() && !violating.iter().any(|v| v.2 == c) {
-                                    violating.push((d1.clone(), m1.clone(), c));
+                                let e = elem_of(d1);
+                                if !c.is_empty() && e <= 2 && !violating.iter().any(|v| v.2 == c && v.3 == e) {
+                                    violating.push((d1.clone(), m1.clone(), c, e));
                                 }
                             }
                         }
-                        for (d1, m1, c1) in &violating {
-                            let s2 = crate::c04::single_mutants(m1);
-                            for (d2, _, c2) in &violating {
-                                if c1 == c2 { continue; }
+                        for (d1, m1, c1, e1) in &violating {
+                            let mut s2 = crate::c04::single_mutants(m1);
+                            s2.extend(crate::c04::absent_member_mutants(code, m1, &shapes));
+                            for (d2, _, c2, e2) in &violating {
+                                if c1 == c2 && e1 == e2 { continue; }
+                                if c1 == c2 && (*e1 == 0 || *e2 == 0) { continue; }
                                 if let Some((_, m2)) = s2.iter().find(|x| &x.0 == d2) {
                                     cases.push((vec![d1.clone(), d2.clone()], m2.clone(), 1));
                                 }
@@ -181,6 +197,8 @@ pub fn run(o: &Opts) -> Report {
                 }
                 for (desc, jj, mode) in cases {
                     let mut fails = Vec::new();
+                    rep.tally(&format!("mutation:{}", desc.first().map(|d| d.split(' ').next().unwrap_or("")).unwrap_or("base")));
+                    if desc.first().is_some_and(|d| d.starts_with("add-absent")) { rep.tally(&format!("add-absent:MT{code}")); }
                     let v = with_mt!(code, T => check_one::<T>(code, &jj, &plugins, mode, &mut fails), None);
                     match v {
                         None => rep.tally("not-deserialisable"),
